@@ -7,7 +7,14 @@ from common import *  # noqa
 ensure_env()
 from progcorpus import *  # noqa
 
-PROOF_FILES = ["Proofs/LowerFrame.v", "Proofs/LowerLemmas.v", "Proofs/LowerCorrect.v"]
+PROOF_FILES = ["Proofs/LowerFrame.v", "Proofs/LowerLemmas.v", "Proofs/LowerCorrect.v",
+               # stages: addIncoming/NormalizeBlocks, sortBlocks, flattenBlocks
+               "Proofs/LowerShape.v", "Proofs/NormalizeSem.v", "Proofs/NormalizeGraph.v", "Proofs/IncomingProof.v", "Proofs/NormalizeCorrect.v",
+               "Proofs/NormalizeExamples.v", "Proofs/NormalizeLowered.v", "Proofs/SortCorrect.v", "Proofs/FlattenCorrect.v",
+               # composition: source semantics -> flattened instruction list of one routine
+               "Proofs/EndToEndExits.v", "Proofs/EndToEndGlue.v", "Proofs/EndToEnd.v", "Proofs/EndToEndTyped.v", "Proofs/EndToEndOpt.v",
+               "Proofs/EndToEndOptExample.v", "Proofs/EndToEndExamples.v"]
+EXTRA_PROPS = ["Props/C01_normalize.v", "Props/C01_flatten.v", "Props/C01_end_to_end.v"]
 
 
 def sem_check(ck, model, rng, c, nctx, stats):
@@ -60,7 +67,7 @@ def main(argv):
     if rc != 0:
         ck.violation("translator aborted: PyTeal's tables no longer have the expected shape", {"broken": "harness/translate.py", "log": out[-2000:]}, no_failing_input=True)
         return ck.finish(level="proof", rule="translator failed")
-    ck.run_proofs("Props/C01.v", PROOF_FILES, extra_targets=["Extract/Main.vo"])
+    ck.run_proofs("Props/C01.v", PROOF_FILES, extra_targets=["Extract/Main.vo"], extra_props=EXTRA_PROPS)
     model = Model()
     rng = ck.rng
     mismatches, semfails, stats, outcomes = [], [], {}, {}
@@ -176,7 +183,7 @@ def main(argv):
         ck.violation("correspondence broken: compile_model text differs from compileTeal on %d generated programs (theorems about Comp/ no longer transfer); the semantic search over all generated contexts found no wrong behaviour" % len(mismatches),
                      {"kind": "correspondence", "broken": "text equality compileTeal vs Comp.Compile.compile_model", "case": c.describe()}, no_failing_input=True)
     if not ck.proof_ok and not semfails:
-        ck.violation("proof obligation broken: Props/C01.v no longer checks", {"kind": "proof", "broken": "Props/C01.v", "log": ck.proof_log[-1500:]}, no_failing_input=True)
+        ck.violation("proof obligation broken: Props/C01*.v no longer check", {"kind": "proof", "broken": "Props/C01.v, Props/C01_normalize.v, Props/C01_flatten.v, Props/C01_end_to_end.v", "log": ck.proof_log[-1500:]}, no_failing_input=True)
     ck.coverage["disagreements_checked"] = len(mismatches) + len(semfails)
     ck.coverage["programs"] = sum(outcomes.values())
     model.close()
